@@ -27,9 +27,26 @@ the sequence into one, so that the comparison points are the same as on the impl
   ['popfeat', c, idx, via] ['popop', c, idx, via]                                               = rmfeat / rmop of that one
   ['editop', c, name, edits]     edits the eParameters of the EOperation object last known as `name` of class c (declared
                                  there, or removed from there) IN PLACE: ['append', p] ['insert', i, p] ['remove', i]
-                                 ['flip', i] (required flag) ['move', i, j]; no model op (the model's operations are values)
+                                 ['flip', i] (required flag) ['move', i, j]; no model op (the model's operations are values):
+                                 when the operation is declared at that moment pyecore regenerates its method (fix e6fe3b2)
+                                 and the history is for the oracle only (`has_live_edit`)
   ['redecl', dst, src, name, via]  dst.eOperations.append/extend/insert(len, ..)/+= of THAT SAME object (a move when it is still
                                  declared in src)                                               = [rmop src] addop dst <current params>
+
+Oracle-only ops (the Coq model has no counterpart: histories containing them are run on the implementation and
+judged by the property restated in harness/props/c12.py, never sent to the model):
+  ['addgen', c, s, mode]         a generic super type of c with classifier s (-1: none); mode 'before' (classifier given
+                                 to EGenericType(), then appended) | 'after' (appended empty, then g.eClassifier = s) | 'extend'
+  ['retgen', c, idx, s]          c.eGenericSuperTypes[idx].eClassifier = s (None when s == -1)
+  ['rmgen', c, idx, via]         via 'remove' | 'pop' | 'delitem';   ['cleargens', c, via]  via as for clearsupers
+  ['movegen', c, idx, d]         d.eGenericSuperTypes.append(<that generic type>)   (containment: it leaves c)
+  ['annot', c, what]             what 'add' | 'rm' | 'pop' | 'clear' on c.eAnnotations          (no effect on instances)
+  ['typar', c, what, name]       what 'add' (ETypeParameter(name)) | 'rm' (the last one) on c.eTypeParameters   (no effect)
+  ['addattr', c, name, tkind, dk, how]   EAttribute over ATTR_TYPES[tkind]; declared default dk 'none' | 'falsy' | 'truthy';
+                                 how 'ctor' (default_value=..) | 'before' (attr.default_value = .. before it is added) |
+                                 'later' (.. after it was added) | 'literal' (defaultValueLiteral=..) | 'literal-later'
+  ['setdefault', c, name, dk, how]  how 'value': attr.default_value = .. (None for 'none') | 'literal': attr.defaultValueLiteral = ..
+Values read from such attributes travel as value_token(v, intern).
 
 Run as a script (`python -P harness/metaedit_io.py`) it is the isolated worker:
 reads one JSON request from stdin, prints one JSON answer."""
@@ -98,6 +115,42 @@ def enc_op(op, intern):
     if k in ('set', 'append', 'call'):
         return [c, op[1], op[3]] + enc_name(op[2])
     raise AssertionError(op)
+
+
+ORACLE_ONLY = ('addgen', 'retgen', 'rmgen', 'cleargens', 'movegen', 'annot', 'typar', 'addattr', 'setdefault')
+
+# tkind (name of the pyecore data type) -> (default of the type, a falsy declared default, a truthy one, their literals)
+ATTR_TYPES = {
+    'EString': (None, '', 'abc', '', 'abc'),
+    'EInt': (0, 0, 7, '0', '7'),
+    'EBoolean': (False, False, True, 'false', 'true'),
+    'EDouble': (0.0, 0.0, 2.5, '0.0', '2.5'),
+    'EIntegerObject': (None, 0, 7, '0', '7'),
+    'EBooleanObject': (None, False, True, 'false', 'true'),
+    'EDoubleObject': (None, 0.0, 2.5, '0.0', '2.5'),
+}
+
+
+def declared_default(tkind, dk):
+    return {'none': None, 'falsy': ATTR_TYPES[tkind][1], 'truthy': ATTR_TYPES[tkind][2]}[dk]
+
+
+def declared_literal(tkind, dk):
+    return {'none': None, 'falsy': ATTR_TYPES[tkind][3], 'truthy': ATTR_TYPES[tkind][4]}[dk]
+
+
+def value_token(v, intern):
+    if v is None:
+        return -1
+    if isinstance(v, bool):
+        return 900 + int(v)
+    if isinstance(v, int):
+        return v
+    return 5000 + intern.tok(f'{type(v).__name__}:{v!r}')
+
+
+def has_oracle_only(history):
+    return any(op[0] in ORACLE_ONLY for op in history)
 
 
 COMPOSITE = ('clearsupers', 'popsuper', 'setsupers', 'replsuper', 'popfeat', 'popop', 'editop', 'redecl')
@@ -264,6 +317,17 @@ def fold_records(tokens, groups):
     return out + tokens[i:]
 
 
+def has_live_edit(history):
+    """Does the history edit the parameters of an operation WHILE it is declared?  (pyecore regenerates the method then;
+    the model's operations are values: such histories are judged by the oracle only.)"""
+    t = Tracker()
+    for op in history:
+        if op[0] == 'editop' and t.find_op(op[1], op[2])[0] == 'live':
+            return True
+        t.expand(op)
+    return False
+
+
 def has_composite(history):
     return any(op[0] in COMPOSITE for op in history)
 
@@ -328,6 +392,9 @@ class Impl:
         self.dead_feats = {}                     # (class id, name) -> a feature object that was removed / never added
         self.ops = {}
         self.dead_ops = {}
+        self.gens = {}                           # class id -> its EGenericType objects, in order
+        self.annots = {}
+        self.typars = {}
         self.insts = []
         self.enum = ec.EEnum('LitEnum', literals=['lit_a', 'lit_b'])
         self.sdt = ec.EDataType('StrDT', str, default_value='hello')
@@ -343,6 +410,8 @@ class Impl:
         for j, x in enumerate(self.insts):
             if x is r:
                 return 1000 + j
+        if isinstance(r, (str, float)):
+            return value_token(r, self.intern)
         return 999
 
     def classify(self, r):
@@ -471,6 +540,87 @@ class Impl:
                 self.feats[c].append(f)
                 coll = self.classes[c].eStructuralFeatures
                 coll.extend([f]) if via == 'extend' else coll.append(f)
+                return 0, []
+            if k == 'addgen':
+                _, c, sid, mode = op
+                S = None if sid == -1 else self.classes[sid]
+                coll = self.classes[c].eGenericSuperTypes
+                g = ec.EGenericType() if (mode == 'after' or S is None) else ec.EGenericType(eClassifier=S)
+                self.gens.setdefault(c, []).append(g)
+                coll.extend([g]) if mode == 'extend' else coll.append(g)
+                if mode == 'after' and S is not None:
+                    g.eClassifier = S
+                return 0, []
+            if k == 'retgen':
+                self.gens[op[1]][op[2]].eClassifier = None if op[3] == -1 else self.classes[op[3]]
+                return 0, []
+            if k == 'rmgen':
+                _, c, idx, via = op
+                g = self.gens[c].pop(idx)
+                coll = self.classes[c].eGenericSuperTypes
+                if via == 'remove':
+                    coll.remove(g)
+                else:
+                    self.pop_at(coll, idx, via)
+                return 0, []
+            if k == 'cleargens':
+                self.gens[op[1]] = []
+                self.bulk_clear(self.classes[op[1]], 'eGenericSuperTypes', op[2])
+                return 0, []
+            if k == 'movegen':
+                _, c, idx, d = op
+                g = self.gens[c].pop(idx)
+                self.gens.setdefault(d, []).append(g)
+                self.classes[d].eGenericSuperTypes.append(g)
+                return 0, []
+            if k == 'annot':
+                _, c, what = op
+                coll, mine = self.classes[c].eAnnotations, self.annots.setdefault(c, [])
+                if what == 'add':
+                    mine.append(ec.EAnnotation(source=f'src{len(mine)}'))
+                    coll.append(mine[-1])
+                elif what == 'clear':
+                    del mine[:]
+                    coll.clear()
+                elif mine:
+                    a = mine.pop()
+                    coll.remove(a) if what == 'rm' else coll.pop()
+                return 0, []
+            if k == 'typar':
+                _, c, what, name = op
+                coll, mine = self.classes[c].eTypeParameters, self.typars.setdefault(c, [])
+                if what == 'add':
+                    mine.append(ec.ETypeParameter(name))
+                    coll.append(mine[-1])
+                elif mine:
+                    coll.remove(mine.pop())
+                return 0, []
+            if k == 'addattr':
+                _, c, name, tkind, dk, how = op
+                etype = getattr(ec, tkind)
+                if how == 'ctor':
+                    f = ec.EAttribute(name, etype, default_value=declared_default(tkind, dk))
+                elif how == 'literal':
+                    f = ec.EAttribute(name, etype, defaultValueLiteral=declared_literal(tkind, dk))
+                else:
+                    f = ec.EAttribute(name, etype)
+                if how == 'before':
+                    f.default_value = declared_default(tkind, dk)
+                self.feats[c].append(f)
+                self.classes[c].eStructuralFeatures.append(f)
+                if how == 'later':
+                    f.default_value = declared_default(tkind, dk)
+                elif how == 'literal-later':
+                    f.defaultValueLiteral = declared_literal(tkind, dk)
+                return 0, []
+            if k == 'setdefault':
+                _, c, name, dk, how = op
+                f = next(x for x in self.feats[c] if x.name == name)
+                tkind = f.eType.name
+                if how == 'literal':
+                    f.defaultValueLiteral = declared_literal(tkind, dk)
+                else:
+                    f.default_value = declared_default(tkind, dk)
                 return 0, []
             if k == 'rmfeat':
                 _, c, name = op
